@@ -3,7 +3,9 @@
            window w and the grant g it sends whenever its window reaches 0; without it the windows never bind)   method 0 GET / 1 HEAD / 2 GET whose request has no END_STREAM (the response is
            then followed by RST_STREAM NO_ERROR, reported as a trailing frame [3 0]); bufsz = handlerChunkWriteSize; hop = keys of HopHeaders;
            script ops: [1 k v] Set  [2 k v] Add  [3 code] WriteHeader  [4 bytes rep] Write(bytes x rep)  [5] Flush
-   output: [frames results]  frames: [1 end [[name value]..]] HEADERS | [2 end bytes] DATA ; results: 0/1 per Write.
+                       [6 k v] raw map append Header()[k] = append(Header()[k], v) (key not canonicalised)
+   output: [frames results] (model) / [frames results blocks] (implementation; blocks = per header block its fragments
+           [length END_HEADERS], see agree_C38)  frames: [1 end [[name value]..]] HEADERS | [2 end bytes] DATA ; results: 0/1 per Write.
    The values of `date` and `content-type` are projected to the empty string (clock / sniffing not modelled). *)
 From Coq Require Import List ZArith Bool.
 From Bfe Require Import lib.Val lib.Bytes model.H2Resp.
@@ -17,6 +19,7 @@ Definition dec_op (v : val) : option hop_ :=
   | VL [VZ 3; VZ c] => Some (OWriteHeader c)
   | VL [VZ 4; VB p; VZ n] => if (0 <=? n) && (n <=? 70000) then Some (OWrite (concat (repeat p (Z.to_nat n)))) else None
   | VL [VZ 5] => Some OFlush
+  | VL [VZ 6; VB k; VB x] => Some (ORaw k x)
   | _ => None
   end.
 
@@ -65,7 +68,34 @@ Definition run_C38 (i : val) : val := run_perm 0 i.
 
 (* at most three "Trailer:"-prefixed keys are generated: 3! = 6 iteration orders *)
 Definition perms : list Z := [0; 1; 2; 3; 4; 5].
-Definition agree_C38 (i o : val) : bool := existsb (fun n => val_eqb (run_perm n i) o) perms.
+(* The harness adds a third element to the implementation's observation: for every header block (response headers,
+   trailers) the list of its HEADERS/CONTINUATION fragments [length END_HEADERS].  The HPACK size of a block is not
+   modelled, so the fragmentation is validated against the model of the split applied to the observed total length. *)
+Definition dec_frag (v : val) : option (Z * bool) :=
+  match v with VL [VZ l; VZ e] => Some (l, negb (e =? 0)) | _ => None end.
+Definition dec_block (v : val) : option (list (Z * bool)) :=
+  match v with VL l => all_some (map dec_frag l) | _ => None end.
+Definition frag_eqb (a b : Z * bool) : bool := (fst a =? fst b) && Bool.eqb (snd a) (snd b).
+Fixpoint frags_eqb (a b : list (Z * bool)) {struct a} : bool :=
+  match a, b with
+  | [], [] => true
+  | x :: a', y :: b' => frag_eqb x y && frags_eqb a' b'
+  | _, _ => false
+  end.
+Definition block_valid (fr : list (Z * bool)) : bool :=
+  frags_eqb fr (header_fragment_lens (fold_right (fun x a => fst x + a) 0 fr)).
+Definition frags_valid (v : val) : bool :=
+  match v with
+  | VL bl => match all_some (map dec_block bl) with Some bs => forallb block_valid bs | None => false end
+  | _ => false
+  end.
+
+Definition agree_C38 (i o : val) : bool :=
+  match o with
+  | VL [fv; resv; fragsv] =>
+    existsb (fun n => val_eqb (run_perm n i) (VL [fv; resv])) perms && frags_valid fragsv
+  | _ => existsb (fun n => val_eqb (run_perm n i) o) perms
+  end.
 
 (* ---- the property on the implementation's own frames ---- *)
 Definition dec_field (v : val) : option (bytes * bytes) :=
@@ -99,13 +129,29 @@ Definition is_rst_no_error (v : val) : bool := val_eqb v RST_NO_ERROR.
 Definition strip_rst (open : bool) (fv : list val) : list val :=
   if open then match rev fv with v :: r => if is_rst_no_error v then rev r else fv | [] => fv end else fv.
 
+(* every header block is delivered completely: at least one fragment, every fragment 1..16384 bytes, END_HEADERS on
+   the last fragment and on no other *)
+Fixpoint block_ok (fr : list (Z * bool)) {struct fr} : bool :=
+  match fr with
+  | [] => false
+  | [(l, e)] => (0 <? l) && (l <=? max_hdr_frame) && e
+  | (l, e) :: r => (0 <? l) && (l <=? max_hdr_frame) && negb e && block_ok r
+  end.
+Definition frags_ok (v : val) : bool :=
+  match v with
+  | VL bl => match all_some (map dec_block bl) with Some bs => forallb block_ok bs | None => false end
+  | _ => false
+  end.
+
+Definition prop_stream (e : env) (ops : list hop_) (fv : list val) (resv : val) : bool :=
+  match all_some (map dec_frame (strip_rst (e_open e) fv)), as_LZ resv with
+  | Some fs, Some res => prop_frames e ops fs res
+  | _, _ => false
+  end.
 Definition prop_C38 (i o : val) : bool :=
   match dec_input i, o with
-  | Some (e, ops), VL [VL fv; resv] =>
-    match all_some (map dec_frame (strip_rst (e_open e) fv)), as_LZ resv with
-    | Some fs, Some res => prop_frames e ops fs res
-    | _, _ => false
-    end
+  | Some (e, ops), VL [VL fv; resv] => prop_stream e ops fv resv
+  | Some (e, ops), VL [VL fv; resv; fragsv] => prop_stream e ops fv resv && frags_ok fragsv
   | _, _ => false
   end.
 
